@@ -773,7 +773,39 @@ func rankText(w *load.World, c *core.Collector) {
 	}
 	// filter: when given, the match set is intersected with it before results are built
 	writes := resultWrites(f)
+	// the restriction may be made by a helper that receives the filter and hands back the match set
+	var restrictCall *ssa.Call
 	if filterAnd == nil {
+		for _, b := range f.Blocks {
+			for _, in := range b.Instrs {
+				call, ok := in.(*ssa.Call)
+				h := ssax.StaticModuleCallee(in)
+				if !ok || h == nil || len(h.Blocks) == 0 {
+					continue
+				}
+				for i, a := range call.Call.Args {
+					if p, isP := a.(*ssa.Parameter); isP && ssax.TypeName(p.Type()) == "roaring64.Bitmap" && i < len(h.Params) {
+						if returnsRestricted(h, h.Params[i], 0) {
+							restrictCall = call
+						}
+					}
+				}
+			}
+		}
+	}
+	if filterAnd == nil && restrictCall != nil {
+		okF := len(writes) > 0
+		for _, wr := range writes {
+			if !ssax.Precedes(restrictCall, wr) {
+				okF = false
+			}
+		}
+		if okF {
+			c.Add("RANK", "text:filter", core.OK, w.At(restrictCall), "", props...)
+		} else {
+			c.Add("RANK", "text:filter", core.Violation, w.At(restrictCall), "with a filter given, results can be built from a match set that was not intersected with it", props...)
+		}
+	} else if filterAnd == nil {
 		c.Add("RANK", "text:filter", core.Violation, w.Position(f.Pos()), "the text search never intersects its match set with the pre-filter", props...)
 	} else {
 		isFilter := isParamOrCapture(f, "roaring64.Bitmap")
@@ -842,6 +874,31 @@ func rankText(w *load.World, c *core.Collector) {
 				return false
 			}
 			return len(call.Call.Args) > 2 && ssax.TypeName(call.Call.Args[2].Type()) == "text.docCacheItem"
+		}
+		// a case of the routine may be a helper: it counts when every successful run of it stores the record
+		directPut := isPut
+		putSums := ssax.NewSummaries(func(in ssa.Instruction) []string {
+			if directPut(in) {
+				return []string{"put-record"}
+			}
+			return nil
+		}, func(g *ssa.Function) []ssa.Instruction {
+			var out []ssa.Instruction
+			for _, e := range successExits(g) {
+				out = append(out, e.In)
+			}
+			return out
+		})
+		isPut = func(in ssa.Instruction) bool {
+			if directPut(in) {
+				return true
+			}
+			for _, l := range putSums.At(in) {
+				if l == "put-record" {
+					return true
+				}
+			}
+			return false
 		}
 		succ := map[ssa.Instruction]bool{}
 		for _, e := range successExits(pd) {
@@ -1492,4 +1549,143 @@ func deepHas(w *load.World, v ssa.Value, label string) bool {
 		}
 	}
 	return false
+}
+
+// unwrapThin: when f does nothing but take a lock (or the like) and hand all its
+// parameters to one function of its own package, the work lives there: returns
+// that function (repeatedly, two levels), else f itself.
+func unwrapThin(f *ssa.Function) *ssa.Function {
+	for depth := 0; depth < 2 && f != nil; depth++ {
+		var target *ssa.Function
+		n, other := 0, 0
+		for _, b := range f.Blocks {
+			for _, in := range b.Instrs {
+				switch x := in.(type) {
+				case *ssa.Call:
+					g := x.Call.StaticCallee()
+					switch {
+					case g != nil && g.Pkg != nil && g.Pkg.Pkg.Path() == "sync":
+					case g != nil && ssax.InModule(g) && load.PkgPath(g) == load.PkgPath(f) && len(g.Blocks) > 0:
+						// all parameters of f are handed over
+						passed := 0
+						for _, p := range f.Params {
+							for _, a := range x.Call.Args {
+								if peelToParam(a) == ssa.Value(p) {
+									passed++
+									break
+								}
+							}
+						}
+						if passed == len(f.Params) {
+							target = g
+							n++
+						} else {
+							other++
+						}
+					default:
+						other++
+					}
+				case *ssa.Defer, *ssa.RunDefers, *ssa.Return, *ssa.FieldAddr, *ssa.UnOp, *ssa.Extract, *ssa.Jump, *ssa.DebugRef, *ssa.If, *ssa.Phi,
+					*ssa.ChangeType, *ssa.ChangeInterface, *ssa.MakeInterface, *ssa.Convert, *ssa.Alloc, *ssa.Store:
+				default:
+					other++
+				}
+			}
+		}
+		if n != 1 || other > 0 || target == nil || target == f {
+			return f
+		}
+		f = target
+	}
+	return f
+}
+
+// peelToParam: the parameter a value is, seen through conversions and through a local cell it was spilled into.
+func peelToParam(v ssa.Value) ssa.Value {
+	for i := 0; i < 4; i++ {
+		switch x := v.(type) {
+		case *ssa.ChangeType:
+			v = x.X
+		case *ssa.Convert:
+			v = x.X
+		case *ssa.UnOp:
+			al, ok := x.X.(*ssa.Alloc)
+			if !ok {
+				return v
+			}
+			sv := ssax.SingleStore(al)
+			if sv == nil {
+				return v
+			}
+			v = sv
+		default:
+			return v
+		}
+	}
+	return v
+}
+
+// returnsRestricted: every return of h that hands back a set does so either on
+// the path where the filter parameter is nil, or with a set that was
+// intersected with it (roaring64.And / the in-place And), directly or through
+// another such helper.
+func returnsRestricted(h *ssa.Function, flt *ssa.Parameter, depth int) bool {
+	if depth > 2 {
+		return false
+	}
+	isFilter := func(v ssa.Value) bool { return v == ssa.Value(flt) }
+	fe, _ := filterEdges(h, isFilter) // edges on which there is no filter (or the id is in it)
+	var inPlace []ssa.Instruction
+	for _, b := range h.Blocks {
+		for _, in := range b.Instrs {
+			if call, ok := in.(*ssa.Call); ok {
+				if g := call.Call.StaticCallee(); g != nil && strings.HasSuffix(g.String(), "roaring64.Bitmap).And") && len(call.Call.Args) == 2 && call.Call.Args[1] == ssa.Value(flt) {
+					inPlace = append(inPlace, in)
+				}
+			}
+		}
+	}
+	found := false
+	for _, b := range h.Blocks {
+		ret, ok := b.Instrs[len(b.Instrs)-1].(*ssa.Return)
+		if !ok || len(ret.Results) == 0 {
+			continue
+		}
+		v := ssax.ReturnOperand(ret, 0)
+		if ssax.IsNilConst(v) {
+			continue // error path
+		}
+		found = true
+		if onlyViaAny(fe, b) {
+			continue // no filter given
+		}
+		okRet := false
+		switch x := v.(type) {
+		case *ssa.Call:
+			if g := x.Call.StaticCallee(); g != nil {
+				if strings.HasSuffix(g.String(), "roaring64.And") {
+					for _, a := range x.Call.Args {
+						if a == ssa.Value(flt) {
+							okRet = true
+						}
+					}
+				} else if ssax.InModule(g) {
+					for i, a := range x.Call.Args {
+						if a == ssa.Value(flt) && i < len(g.Params) && returnsRestricted(g, g.Params[i], depth+1) {
+							okRet = true
+						}
+					}
+				}
+			}
+		}
+		for _, ip := range inPlace {
+			if ssax.Precedes(ip, ret) {
+				okRet = true
+			}
+		}
+		if !okRet {
+			return false
+		}
+	}
+	return found
 }
